@@ -15,6 +15,7 @@ Clauses(e) ==
       <<"real-strictly-positive", e.raised \/ e.positive>>,
       <<"returns-burg-ar-vector", e.raised \/ Small(e.ar_dev, 1000)>>,
       <<"returns-burg-reflection", e.raised \/ Small(e.k_dev, 1000)>>,
+      <<"reflection-coefficients-minimise-each-stage", e.raised \/ Small(e.min_dev, 1000)>>,
       <<"lengths", e.raised \/ e.len_ok>> }
 
 VARIABLES l, fails
